@@ -122,6 +122,32 @@ func GenMirror(t *rapid.T) MirrorCase {
 		}
 		return out
 	}
+	if rapid.IntRange(0, 5).Draw(t, "mkexisting") == 0 {
+		// a plain-file create whose name exists as a directory (or file), then more through that fid
+		block := []Op{
+			{Kind: "clunk", Fid: 5},
+			{Kind: "walk", Fid: 0, Newfid: 5},
+			{Kind: "create", Fid: 5, Name: harn.B(rapid.SampledFrom([]string{"a", "e", "a", "f"}).Draw(t, "mkename")), Dir: rapid.IntRange(0, 3).Draw(t, "mkedir") == 0, Perm: 0644, Mode: rapid.SampledFrom([]uint8{0, 3, 1, 0x10}).Draw(t, "mkemode")},
+			{Kind: "create", Fid: 5, Name: harn.B("x2"), Perm: 0644, Mode: 1},
+			{Kind: "fstat", Fid: 5},
+			{Kind: "clunk", Fid: 5},
+		}
+		at := rapid.IntRange(1, len(c.Ops)).Draw(t, "mkeat")
+		c.Ops = append(c.Ops[:at], append(block, c.Ops[at:]...)...)
+	}
+	if rapid.IntRange(0, 5).Draw(t, "dotdotstat") == 0 {
+		// a fresh fid reached by a walk that ends in "..", stat'ed directly
+		block := []Op{
+			{Kind: "clunk", Fid: 5}, {Kind: "clunk", Fid: 6},
+			{Kind: "walk", Fid: 0, Newfid: 5, Names: B("a", "d")},
+			{Kind: "walk", Fid: 5, Newfid: 6, Names: B("..")},
+			{Kind: "fstat", Fid: 6, Count: 1},
+			{Kind: "walk", Fid: 5, Newfid: 5, Names: B("..", "..")},
+			{Kind: "fstat", Fid: 5, Count: 1},
+		}
+		at := rapid.IntRange(1, len(c.Ops)).Draw(t, "ddat")
+		c.Ops = append(c.Ops[:at], append(block, c.Ops[at:]...)...)
+	}
 	if rapid.IntRange(0, 5).Draw(t, "renopen") == 0 {
 		// an open fid is renamed, successfully or onto something the host refuses, and used on
 		target := rapid.SampledFrom([]string{"a", "e", "r7", "x"}).Draw(t, "rentarget")
@@ -548,6 +574,24 @@ func RunMirror(c MirrorCase) harn.Result {
 			if !bound {
 				if x := expectFail("fid not bound"); x != nil {
 					return *x
+				}
+				break
+			}
+			if op.Count == 1 {
+				// a stat on the fid itself: the fid may have been walked long ago, so only what cannot
+				// have changed since is compared - the name it was walked to and the object's identity
+				if failed {
+					break
+				}
+				if hi, herr := os.Lstat(E(f.rel)); herr == nil {
+					wantName := hi.Name()
+					if f.rel == "/" {
+						wantName = r.dir.Name // the root's name is the export's base name or "/": not asserted
+					}
+					if ino, _ := inoOf(E(f.rel)); r.dir.Name != wantName || r.dir.Qid.Path != ino {
+						return fail("stat on the fid reports name %q, qid path %d; the fid was walked to %q (inode %d)", r.dir.Name, r.dir.Qid.Path, wantName, ino)
+					}
+					cl["direct_stat"] = true
 				}
 				break
 			}
